@@ -109,6 +109,29 @@ CHECKS = {
          "DESIGN.md §4 C17"),
 }
 
+# passes added after the first version of each monitor (rounds 1-3 of the seeded changes, DESIGN.md §10.6)
+ADDED = {
+ "C01": "Added later: neighbouring-message checks on every issued signature, opposite-sign witnesses, the honest proof under a channel id differing in one bit.",
+ "C02": "Added later: a tracker that fires when one pay token is accepted under two public nonces, compensating plans (nonce+1 balanced in another slot), boundary bases, and the closing signature of the old state spent as pay token under a fresh nonce.",
+ "C03": "Added later: in-memory identity replies for the four merchant calls, replies made of small-order points.",
+ "C05": "Added later: band digests and crafted pair generation, the C02 forger's committed-lock plans under all strategies.",
+ "C06": "Added later: all 256 channel-id bits, near range parameters, per-key-element substitution, a degenerate in-memory closing signature, digest-of-context contexts, wire amounts including i64::MIN.",
+ "C07": "Added later: zero-exponent messages, signing under zero windows, a crafted-key case.",
+ "C08": "Added later: zero-randomiser signer, decode probe of VerifiedBlindedMessage, order-3 shift tamper, corrupted signer key.",
+ "C09": "Added later: generated parameters under zero windows.",
+ "C10": "Added later: word-sized values, new() versus default constructors.",
+ "C11": "Added later: non-canonical (+q) scalars, length prefixes, order-3 shifts, simulated transcripts with machine-word-sized responses and about the identity statement.",
+ "C12": "Added later: every parameter atom, related-context corpus, constructors.",
+ "C13": "Added later: coordinated pairs of invalid digit proofs, cooperating sigma2 substitutions in validate(), a digit signature extrapolated from two published ones, and an adaptive prover that re-fits one digit proof after the challenge.",
+ "C14": "Added later: an entropy-failure pass, hostile range parameters (crafted elements, digit signatures made of small-order points) with sessions judged even when cut short.",
+ "C15": "Added later: length prefixes, RevocationLock::from_bytes.",
+ "C16": "Added later: a JSON pass, ChannelId::from_str on hostile strings including multi-byte characters at every alignment, wide instantiations (N=13, 40 scalars) in the quick tier.",
+ "C17": "Added later: cross-amount checks (a proof made for X offered under Y at the encoding boundaries).",
+ "C18": "Added later: tag+q sample pattern, single key elements in the channel id, account infos up to 8 KiB with the last byte changed, a close-tag forger on the establish side and the closing signature spent as pay token on the pay side.",
+ "C19": "Added later: samples q, 2q, 256q (reduce to zero), and algebraically related samples (x = -sum y_i m_i; range key x = -d*y) that make a legitimate signature with sigma2 = identity.",
+ "C20": "Added later: histories with a zero or close-tag scalar sample, and a JSON store format (alone and alternating with the binary one) on balances around 2^53.",
+}
+
 IMPLEMENTED = set(CHECKS)
 ALL = ["C%02d" % i for i in range(1, 21)]
 
@@ -118,6 +141,8 @@ def main():
         if pid not in CHECKS:
             continue
         cat, tech, text, note, ref = CHECKS[pid]
+        if pid in ADDED:
+            text = text + " " + ADDED[pid]
         checks.append({
             "property_id": pid,
             "quick_cmd": "./check %s --tier quick" % pid,
